@@ -5,15 +5,17 @@ HERE = os.path.dirname(os.path.dirname(os.path.abspath(__file__)))
 
 CLAIMED = {
  'C11': dict(
-    text='Machine-checked proof (Lean 4) on a model of ProcessStatus/Context status synthesis: for every admissible history '
-         'over any number of instances the synthesis never raises, an instance is listed iff the fold of its own reports says so, '
-         'the listing is duplicate-free (conflict flag counts distinct instances), the state is a running state iff a listed '
-         'instance last reported one, a loss never touches other entries and always unlists the lost instance. The model is tied to the current /repo by a lock-step '
-         'correspondence (real Context driven in-process, every observation compared and judged by the Lean specification).',
-    note='Partial: one input class is excluded from the theorems and recorded as a known finding (remove-entry-not-stopped; refutation '
-         'witness proved in Lean and replayed on the code); the second one, lose-while-only-stopping, was repaired (a0ba3bf): the loss of an instance '
-         'is now claimed without condition (C11_lose_unlists: a lost instance is never left listed, whatever the process). The stopped-like display and the '
-         'forced-state clauses are judged on the implementation by the Lean specification (search), not yet proved. Trusted: Lean '
+    text='Machine-checked proof (Lean 4) on a model of ProcessStatus/Context status synthesis, at FULL STRENGTH since the two defects that '
+         'used to be excluded were repaired (a0ba3bf, 958c9f3): for EVERY history of snapshots, events in any order, instance losses, removals, '
+         'forced states, disability changes and ticks over any number of instances that does not make the synthesis raise - and it only raises on an '
+         'update / removal about an instance without entry, which Context.check_process filters out - an instance is listed iff the fold of its own '
+         'reports says so (C11_listed_iff_spec), the listing is duplicate-free (conflict flag counts distinct instances), a stopped-like state lists '
+         'nobody, the state is a running state iff a listed instance last reported one, a loss never touches other entries and always unlists the '
+         'lost instance. The model is tied to the current /repo by a lock-step correspondence (real Context driven in-process, every observation '
+         'compared and judged by the Lean specification).',
+    note='Partial: the stopped-like display and the forced-state clauses are judged on the implementation by the Lean specification (search), '
+         'not yet proved. Defects repaired: lose-while-only-stopping (a0ba3bf), remove-entry-not-stopped (958c9f3) - both were known findings with '
+         'refutation witnesses, which are now examples of the repaired behaviour. Trusted: Lean '
          'kernel, standard axioms, harness/c11.py, harness/simenv.py, Drv/C11.lean; reception-time ties left open.',
     technique='Lean 4 invariant proof over operation histories + lock-step model/implementation correspondence',
     design='7 (C11)'),
